@@ -212,7 +212,7 @@ def case_nd(ctx, index, rng: random.Random):
     except Exception:
         return
     cols = [f"c{i}" for i in range(d)]
-    container = rng.choice(["rows_list", "pd_df", "pd_df_acc", "pl_df", "pl_df_acc", "h2_series_pd", "h2_series_pl", "h2_lists", "h3_cols", "h2_layouts"])
+    container = rng.choice(["rows_list", "pd_df", "pd_df_acc", "pl_df", "pl_df_acc", "h2_series_pd", "h2_series_pl", "h2_lists", "h3_cols", "h2_layouts", "pl_df_acc_reused", "pd_df_acc_reused"])
     desc = {"container": container, "d": d, "rows": gen.hexlist(rows.ravel()), "weights": None if w is None else w.tolist()}
     names = tuple(cols)
     bins = [e.copy() for e in edges]
@@ -236,6 +236,36 @@ def case_nd(ctx, index, rng: random.Random):
             elif container == "pl_df_acc":
                 df = pl.DataFrame({c: rows[:, i] for i, c in enumerate(cols)})
                 got = df.physt.h(*cols, bins=bins, **kw)
+            elif container in ("pl_df_acc_reused", "pd_df_acc_reused"):
+                # the accessor object is cached on the frame: after the frame was changed in place (a cell, the column names) the
+                # histogram is that of the values and names the frame holds now
+                fin_rows = np.where(np.isnan(rows), 0.0, rows) if False else rows
+                if container.startswith("pl"):
+                    df = pl.DataFrame({c: rows[:, i] for i, c in enumerate(cols)})
+                    with attach.quiet():
+                        df.physt.h(bins=[b_.copy() for b_ in bins])  # first use of the accessor
+                    r_, c_ = rng.randrange(n), rng.randrange(d)
+                    newv = float(edges[c_][0] + (edges[c_][-1] - edges[c_][0]) * rng.choice([0.25, 0.5, 0.75]))
+                    df[r_, cols[c_]] = newv
+                    rows[r_, c_] = newv
+                    cols = [f"n{i}" for i in range(d)]
+                    df.columns = cols
+                    got = df.physt.h(bins=bins, **kw)
+                else:
+                    df = pd.DataFrame(rows.copy(), columns=cols)
+                    with attach.quiet():
+                        df.physt.histogram(cols, [b_.copy() for b_ in bins])
+                    r_, c_ = rng.randrange(n), rng.randrange(d)
+                    newv = float(edges[c_][0] + (edges[c_][-1] - edges[c_][0]) * rng.choice([0.25, 0.5, 0.75]))
+                    df.iloc[r_, c_] = newv
+                    rows[r_, c_] = newv
+                    cols = [f"n{i}" for i in range(d)]
+                    df.columns = cols
+                    got = df.physt.histogram(cols, bins, **kw)
+                names = tuple(cols)
+                with attach.quiet():
+                    ref = physt.h(rows.copy(), [e.copy() for e in edges], **kw)
+                desc["rows"] = gen.hexlist(rows.ravel())
             elif container in ("h2_series_pd", "h2_series_pl", "h2_lists"):
                 if d != 2:
                     return
@@ -407,7 +437,10 @@ def case_conversion(ctx, index, rng: random.Random):
     rec.mon("C17.conversion")
     kind = rng.choice(["xarray", "series", "dataframe", "index", "index_gapped", "index_bad", "geant1", "geant2", "geant2"])
     gapped = kind == "index_gapped" or (kind in ("series", "dataframe") and rng.random() < 0.3)
-    pairs = gen.gapped_pairs(rng, rng.randint(2, 6)) if gapped else gen.pairs_from_edges(gen.edges(rng, rng.randint(1, 7)))
+    if gapped and rng.random() < 0.4:
+        pairs = gen.tiny_gapped_pairs(rng, rng.randint(2, 6))  # gaps far below numpy's allclose tolerance are gaps all the same
+    else:
+        pairs = gen.gapped_pairs(rng, rng.randint(2, 6)) if gapped else gen.pairs_from_edges(gen.edges(rng, rng.randint(1, 7)))
     n = rng.randint(0, 30)
     data = np.asarray(gen.data_for_bins(rng, pairs, n), dtype=float)
     w = np.asarray([rng.randint(1, 16) / 4 for _ in range(n)], dtype=float)
